@@ -472,14 +472,57 @@ func TestCaseUnalign(t *testing.T) { pbt.Run(t, genCase, checkCase) }
 // ---- Sequence level Reverse / Complement --------------------------------------------------
 
 type seqCase struct {
-	Seq string `json:"seq"`
+	Seq    string   `json:"seq"`
+	Others []string `json:"others,omitempty"` // other rows of the alignment the sequence is taken from
+	Via    string   `json:"via"`              // "alone", "index", "name"
 }
 
 func TestSequenceLevel(t *testing.T) {
 	pbt.Run(t, func(t *rapid.T) seqCase {
-		return seqCase{gen.SeqOf(dnaChars, 0, 30).Draw(t, "seq")}
+		c := seqCase{Seq: gen.SeqOf(dnaChars, 0, 30).Draw(t, "seq")}
+		c.Via = rapid.SampledFrom([]string{"alone", "alone", "index", "name"}).Draw(t, "via")
+		if c.Via != "alone" {
+			if len(c.Seq) == 0 {
+				c.Seq = gen.SeqN(t, dnaChars, 1)
+			}
+			for i, n := 0, rapid.IntRange(0, 3).Draw(t, "others"); i < n; i++ {
+				c.Others = append(c.Others, gen.SeqN(t, dnaChars, len(c.Seq)))
+			}
+		}
+		return c
 	}, func(c seqCase) (o pbt.Outcome, err error) {
-		s := align.NewSequence("x", []uint8(c.Seq), "")
+		// the sequence object: built alone, or a row of an alignment reached by index or name
+		var s align.Sequence
+		var al align.Alignment
+		at := 0
+		if c.Via == "alone" {
+			s = align.NewSequence("x", []uint8(c.Seq), "")
+		} else {
+			al = align.NewAlign(align.NUCLEOTIDS)
+			at = len(c.Others) / 2
+			k := 0
+			for i := 0; i <= len(c.Others); i++ {
+				if i == at {
+					if e := al.AddSequence("x", c.Seq, ""); e != nil {
+						return o, fmt.Errorf("harness: %v", e)
+					}
+					continue
+				}
+				if e := al.AddSequence(fmt.Sprintf("o%d", k), c.Others[k], ""); e != nil {
+					return o, fmt.Errorf("harness: %v", e)
+				}
+				k++
+			}
+			var ok bool
+			if c.Via == "index" {
+				s, ok = al.Sequence(at)
+			} else {
+				s, ok = al.SequenceByName("x")
+			}
+			if !ok {
+				return o, fmt.Errorf("row x of the alignment is not found (%s)", c.Via)
+			}
+		}
 		s.Reverse()
 		rev := []byte(c.Seq)
 		for i, j := 0, len(rev)-1; i < j; i, j = i+1, j-1 {
@@ -489,16 +532,39 @@ func TestSequenceLevel(t *testing.T) {
 			return o, fmt.Errorf("Reverse(%q) = %q", c.Seq, s.Sequence())
 		}
 		if e := s.Complement(); e != nil {
-			// Sequence.Complement first detects the alphabet of the single sequence; a
-			// sequence without any nucleotide letter is legitimately refused
-			o.Class("refused")
-			return o, nil
+			// every character of the property's alphabet (IUPAC in both cases, '-', '.', '*') can be a
+			// nucleotide: a sequence over it is never refused (the unchanged code refuses none)
+			return o, fmt.Errorf("Complement of %q (a sequence over the IUPAC DNA alphabet, '-', '.', '*') is refused: %v; the sequence is left as %q, want %q", string(rev), e, s.Sequence(), refRevComp(c.Seq))
 		}
 		if s.Sequence() != refRevComp(c.Seq) {
 			return o, fmt.Errorf("Reverse+Complement(%q) = %q want %q", c.Seq, s.Sequence(), refRevComp(c.Seq))
 		}
-		o.NonTrivial = strings.ContainsAny(c.Seq, "KMBDHVkmbdhv") && len(c.Seq) > 1
+		if al != nil {
+			// the row of the alignment is the object that was transformed; the other rows are untouched
+			k := 0
+			for i := 0; i <= len(c.Others); i++ {
+				got, _ := al.GetSequenceById(i)
+				want := refRevComp(c.Seq)
+				if i != at {
+					want = c.Others[k]
+					k++
+				}
+				if got != want {
+					return o, fmt.Errorf("after Reverse+Complement of row %d reached by %s, row %d of the alignment is %q, want %q", at, c.Via, i, got, want)
+				}
+			}
+		}
+		// twice restores
+		s.Reverse()
+		if e := s.Complement(); e != nil || s.Sequence() != c.Seq {
+			return o, fmt.Errorf("Reverse+Complement twice of %q gives %q (err %v)", c.Seq, s.Sequence(), e)
+		}
+		o.NonTrivial = strings.ContainsAny(c.Seq, "KMBDHVkmbdhv*.") && len(c.Seq) > 1
 		o.Class("len%%2=%d", len(c.Seq)%2)
+		o.Class("via=%s", c.Via)
+		if strings.Trim(c.Seq, "-.*") == "" {
+			o.Class("no-letter")
+		}
 		return o, nil
 	})
 }
